@@ -19,7 +19,7 @@ LEVEL = "exploration"
 BUDGET = {"quick": {"wall_s": 400}, "thorough": {"wall_s": 3000}}
 EXHAUSTIVE = {"quick": True, "thorough": True}
 RULE = ("scenario worlds x 5 operations x every single droppable member and every pair of droppable members locked "
-        "by a foreign process (real fcntl F_SETLK write lock, or read lock, held by a helper process) x {default, --no-lock}; plus "
+        "by a foreign process (real fcntl F_SETLK write lock, read lock, or write lock on a byte range only, held by a helper process) x {default, --no-lock}; plus "
         "the same choices with F_SETLK failing at the seam (EAGAIN / EACCES) instead of a real holder; thorough adds "
         "seeded worlds. non-trivial = at least one locked path is droppable in the lock-free run; distinct = distinct "
         "trace signatures")
@@ -35,7 +35,10 @@ fds = []
 kind = fcntl.LOCK_SH if sys.argv[1] == "sh" else fcntl.LOCK_EX
 for p in sys.argv[2:]:
     fd = os.open(os.fsencode(p), os.O_RDWR)
-    fcntl.lockf(fd, kind | fcntl.LOCK_NB)
+    if sys.argv[1] == "range":
+        fcntl.lockf(fd, kind | fcntl.LOCK_NB, 100, 1000, os.SEEK_SET)   # bytes 1000..1099 only (may lie beyond EOF)
+    else:
+        fcntl.lockf(fd, kind | fcntl.LOCK_NB)
     fds.append(fd)
 sys.stdout.write("ready\n"); sys.stdout.flush()
 sys.stdin.read()
@@ -87,8 +90,10 @@ def gen_cases(tier, seed):
                 for nolock in (False, True):
                     # "holder-sh": the foreign process holds a shared (read) lock - it conflicts with
                     # the exclusive lock a process that is about to replace the file has to take
-                    for mode in ("holder", "holder-sh", "EAGAIN", "EACCES"):
-                        if nolock and mode in ("EACCES", "holder-sh"):
+                    # "holder-range": the foreign lock covers a byte range only - any range conflicts with a lock on
+                    # the whole file
+                    for mode in ("holder", "holder-sh", "holder-range", "EAGAIN", "EACCES"):
+                        if nolock and mode in ("EACCES", "holder-sh", "holder-range"):
                             continue
                         yield {"sc": sc, "op": op, "locked": list(s), "nolock": nolock, "mode": mode,
                                "drop": drop, "n_clean": n_clean}
@@ -111,7 +116,7 @@ def run_case(case):
         holder = None
         plan = []
         if case["mode"].startswith("holder"):
-            holder = subprocess.Popen([sys.executable, "-c", HOLDER, "sh" if case["mode"] == "holder-sh" else "ex"] + [os.path.join(rd.world, p) for p in case["locked"]],
+            holder = subprocess.Popen([sys.executable, "-c", HOLDER, {"holder-sh": "sh", "holder-range": "range"}.get(case["mode"], "ex")] + [os.path.join(rd.world, p) for p in case["locked"]],
                                       stdin=subprocess.PIPE, stdout=subprocess.PIPE)
             if holder.stdout.readline().strip() != b"ready":
                 holder.kill()
